@@ -15,7 +15,7 @@ def families(tier):
     yield "C10 core product (every %s case)" % ("5th" if tier == "quick" else "1st"), spaces.c10_core(5 if tier == "quick" else 1)
     yield "C13 structured ref states (default layout)", spaces.c13_default_layout(tier)
     yield "C14 directive placements", spaces.c14_short()
-    yield "multi-insertion family (n x width x preceding character)", spaces.multi_insertion(big_counts=(5000,) if tier == "thorough" else ())
+    yield "multi-insertion family (n x width x preceding character)", spaces.multi_insertion(big_counts=(1000, 5000) if tier == "thorough" else ())
     yield "real corpora + single-token-edit neighbourhoods", spaces.corpus_files(True, None if tier == "thorough" else 120_000)
 
 
